@@ -45,6 +45,13 @@ package ice
 // alive timer; further incoming connections never do.
 //@ enumerate C15 calls ice.(*tcpPacketConn).ClearAliveTimer in (*TCPMuxDefault).GetConnByUfrag
 //@ enumerate C15 stores ice.tcpPacketConn.aliveTimer in newTCPPacketConn
+// ClearAliveTimer only stops the timer; Reset on a stopped AfterFunc timer re-arms it. Once a handle
+// has been given out the timer must stay dead, so the alive timer is never re-armed anywhere.
+//@ enumerate C13 C15 calls time.(*Timer).Reset@ice.tcpPacketConn.aliveTimer in nowhere
+
+// The closed flag is written by Close under m.mu: whoever takes the lock sees the current value,
+// and what was read under an earlier critical section says nothing about it.
+//@ lockprotects ice.TCPMuxDefault.mu closed
 
 // Lookup and registration are keyed by (family, ufrag, local IP string).
 //@ func (*TCPMuxDefault).getConn
@@ -69,7 +76,9 @@ package ice
 //@   site call createConn#1 ghost createdNow := true
 //@   site call newSharedPacketConn#1 assert C15 C13 a-handle-is-handed-out-only-on-an-open-connection: createdNow || foundOpen
 //@   site call newSharedPacketConn#1 assert hands-out-a-handle-on-that-connection: arg0.payload == conn
-//@   ensures closed-mux-hands-out-nothing: old(m.closed) ==> result0 == nil && result1 != nil
+//@   ghostvar closedUnderLock bool = false
+//@   site call Lock#1 ghost after closedUnderLock := m.closed
+//@   ensures closed-mux-hands-out-nothing: closedUnderLock ==> result0 == nil && result1 != nil
 
 //@ func (*TCPMuxDefault).createConn
 //@   props C15
